@@ -112,8 +112,162 @@ def runExtra (name : String) : String :=
     s!"wc={s0.queue.length} polls={".".intercalate polls} compl={r.2.1}\tok"
   | _ => "bad-case\t-"
 
+/-! ### `v` cases: operations from outside -/
+
+def parsePair (r : String) : Option (Nat × Nat) :=
+  match r.splitOn "." with
+  | [a, b] => do pure (← a.toNat?, ← b.toNat?)
+  | _ => none
+
+def parseXOp (t : String) : Option XOp :=
+  match t.toList with
+  | ['s'] => some .step
+  | ['u'] => some .rus
+  | ['X'] => some .dropExec
+  | ['p'] => some .spawn
+  | 'w' :: r => (parsePair (String.ofList r)).map fun (k, i) => .wake k i
+  | 'r' :: r => (parsePair (String.ofList r)).map fun (k, i) => .byRef k i
+  | 'c' :: r => (parsePair (String.ofList r)).map fun (k, i) => .clone k i
+  | 'd' :: r => (parsePair (String.ofList r)).map fun (k, i) => .drop k i
+  | 'S' :: r => (String.ofList r).toNat?.map .signal
+  | 't' :: r => (String.ofList r).toNat?.map .try_
+  | _ => none
+
+def chanOfAction : Action → Nat
+  | .wait k => k + 1
+  | .signal k => k + 1
+  | _ => 0
+
+def chanOfOp : XOp → Nat
+  | .wake k _ => k + 1
+  | .byRef k _ => k + 1
+  | .clone k _ => k + 1
+  | .drop k _ => k + 1
+  | .signal k => k + 1
+  | _ => 0
+
+def showErr : Except TryErr Nat → String
+  | .ok v => s!"v{v}"
+  | .error .notSent => "NS"
+  | .error .senderDropped => "SD"
+  | .error .alreadyReceived => "AR"
+
+structure VRun where
+  x : XState
+  toks : List String := []
+  lost : List Nat := []
+  /-- a waker was dropped or the executor is gone: tasks may be abandoned on purpose -/
+  abandoned : Bool := false
+  verdict : Option String := none
+
+def wcStr (x : XState) : String := if x.dead then "x" else toString x.s.queue.length
+
+/-- the checks of the Spec that still apply when wake-ups come from outside; "no lost wake-up" only
+    while no waker has been thrown away -/
+def checkV (r : VRun) : Option String :=
+  let s := r.x.s
+  if !nodupB s.queue then some "queue-dup"
+  else if !r.abandoned && !noLostB s then some "lost-wakeup"
+  else if !r.abandoned && !stallB s then some "stalled-not-waiting"
+  else if !noPollAfterFinB s.log then some "poll-after-complete"
+  else if !bracketedB s.log then some "reentrant-poll"
+  else if !relayB s then some "relay-not-once"
+  else if s.bad then some "panic-branch"
+  else none
+
+def vOp (nch : Nat) (r : VRun) (op : XOp) : VRun :=
+  let x := r.x
+  let idx (k i : Nat) : Bool := ((x.s.waiters k)[i]?).isSome
+  let (x', tok, ab) : XState × String × Bool :=
+    match op with
+    | .step =>
+      if x.dead then (x, "s:x", false) else
+      match stepObs x.s with
+      | none => (x, "s:-", false)
+      | some (s', tok, _) => ({ x with s := s' }, tok, false)
+    | .rus =>
+      if x.dead then (x, "u:x", false) else
+      let res := runUntilStalled maxSteps x.s 0
+      let polls := (res.1.log.drop x.s.log.length).filterMap fun
+        | .ret t b => some s!"{t}{if b then "r" else "p"}"
+        | _ => none
+      ({ x with s := res.1 }, s!"u{res.2.1}[{",".intercalate polls}]", false)
+    | .wake k i => if idx k i then let y := xApply x nch op; (y, wcStr y, false) else (x, ".", false)
+    | .byRef k i => if idx k i then let y := xApply x nch op; (y, wcStr y, false) else (x, ".", false)
+    | .clone k i => if idx k i then let y := xApply x nch op; (y, wcStr y, false) else (x, ".", false)
+    | .drop k i => if idx k i then let y := xApply x nch op; (y, wcStr y, true) else (x, ".", false)
+    | .signal _ => let y := xApply x nch op; (y, wcStr y, false)
+    | .dropExec => (xApply x nch op, "X", true)
+    | .try_ c =>
+      if c < x.s.ntasks && !((List.range x.s.ntasks).any fun t => (x.s.kids t).contains c) then (xApply x nch op, s!"t:{showErr (tryRecvTask x.s nch c).2}", false) else (x, ".", false)
+    | .spawn =>
+      match x.s.pool with
+      | [] => (x, ".", false)
+      | _ => if x.dead then (x, "p:refused", false) else let y := xApply x nch op; (y, s!"p:{y.s.queue.length}", false)
+  let newly := (List.range x'.s.ntasks).filter fun t => lostB x'.s nch t && !r.lost.contains t
+  let tok := if newly.isEmpty then tok else s!"{tok}!{".".intercalate (newly.map toString)}"
+  let r' : VRun := { r with x := x', toks := tok :: r.toks, lost := r.lost ++ newly, abandoned := r.abandoned || ab }
+  let v := match r.verdict with
+    | some e => some e
+    | none =>
+      match checkV r' with
+      | some e => some s!"{e}@{r'.toks.length}"
+      | none => if !r'.abandoned && !newly.isEmpty then some s!"task-lost@{r'.toks.length}" else none
+  { r' with verdict := v }
+
+def showRecvV (s : State) (nch : Nat) (c : Nat) : String :=
+  let r1 := tryRecvTask s nch c
+  let r2 := tryRecvTask r1.1 nch c
+  s!"{c}:{showErr r1.2}/{showErr r2.2}"
+
+def runV (line : String) : String :=
+  match line.splitOn ";" with
+  | [sys, opsT] =>
+    match sys.splitOn ":" with
+    | [hd, body] =>
+      match words hd, (words opsT).mapM parseXOp with
+      | [m, r], some ops =>
+        match r.toNat?, (splitTrim body "/").mapM parseScript with
+        | some roots, some scripts =>
+          if m ≠ "d" ∧ m ≠ "s" then "bad-case\t-" else
+          let nch := ((scripts.flatMap id).map chanOfAction ++ ops.map chanOfOp).foldl max 0
+          let s0 := init (m == "s") scripts roots
+          let r := ops.foldl (vOp nch) { x := { s := s0 } }
+          let s := r.x.s
+          let dn := completionOrder s.log
+          let recv := (List.range s.ntasks).map (showRecvV s nch)
+          let obs := s!"{" ".intercalate r.toks.reverse} | done={if dn.isEmpty then "-" else ".".intercalate (dn.map toString)} wc={wcStr r.x} recv={",".intercalate recv}"
+          obs ++ "\t" ++ (match r.verdict with | some e => s!"FAIL:{e}" | none => "ok")
+        | _, _ => "bad-case\t-"
+      | _, _ => "bad-case\t-"
+    | _ => "bad-case\t-"
+  | _ => "bad-case\t-"
+
+/-! ### `f` cases: the forwarder alone -/
+
+def parseFOp : String → Option FOp
+  | "send" => some .send
+  | "ds" => some .dropSender
+  | "dr" => some .dropReceiver
+  | "try" => some .try_
+  | "pa" => some (.poll 0)
+  | "pb" => some (.poll 1)
+  | _ => none
+
+def runF (rest : String) : String :=
+  match (words rest).mapM parseFOp with
+  | none => "bad-case\t-"
+  | some ops =>
+    let (f, toks) := ops.foldl (fun (acc : FState × List String) op =>
+      let r := fstep acc.1 op; (r.1, r.2 :: acc.2)) (({} : FState), [])
+    -- the property on this run: at most one delivery (of the value sent), at most one wake-up
+    let ok := f.got.length ≤ 1 && f.got.all (· == 7) && f.woken 0 + f.woken 1 ≤ 1 && !f.bad
+    s!"{" ".intercalate toks.reverse} | woken={f.woken 0},{f.woken 1} held={f.held 0},{f.held 1}\t{if ok then "ok" else "FAIL:forwarder"}"
+
 def runLine (line : String) : String :=
   if line.startsWith "x " then runExtra (line.drop 2).trimAscii.toString else
+  if line.startsWith "v " then runV (line.drop 2).toString else
+  if line == "f" || line.startsWith "f " then runF (line.drop 1).toString else
   match line.splitOn ":" with
   | [hd, body] =>
     match words hd with
